@@ -276,6 +276,14 @@ def d3_single_source(ctx):
                    detail='field not read')
 
 
+def CBATTR(ctx):
+    from ._shared import attr_from_param
+    a = attr_from_param(ctx.repo.cls('MetaData'), 'callatfilecreationordeletion')
+    if a is None:
+        raise AnalysisError('MetaData: attribute holding the file creation/deletion callback not found by role')
+    return a
+
+
 def d4_metadata(ctx, a_regen):
     nt = ctx.repo.func('array.numtypedescriptiontxt')
     tests = [n for n in own_nodes(nt.node) if isinstance(n, ast.If) and 'metadata' in norm(n.test)]
@@ -302,7 +310,7 @@ def d4_metadata(ctx, a_regen):
     n = 0
     for name in ('pop', 'popitem', 'update'):
         f = M.methods[name]
-        cbs = [c for c in own_nodes(f.node) if isinstance(c, ast.Call) and dotted(c.func) == 'self._callatfilecreationordeletion']
+        cbs = [c for c in own_nodes(f.node) if isinstance(c, ast.Call) and dotted(c.func) == f'self.{CBATTR(ctx)}']
         for e in ctx.E.primitives(f):
             if e.kind == 'DELETE':
                 n += 1
@@ -323,7 +331,7 @@ def d4_metadata(ctx, a_regen):
         for e in ctx.E.primitives(f):
             if e.kind == 'DELETE':
                 n += 1
-                cbs = [c for c in own_nodes(f.node) if isinstance(c, ast.Call) and dotted(c.func) == 'self._callatfilecreationordeletion']
+                cbs = [c for c in own_nodes(f.node) if isinstance(c, ast.Call) and dotted(c.func) == f'self.{CBATTR(ctx)}']
                 ctx.decide(bool(cbs) and must_follow(f, e.node, cbs), 'R-POST', 'D4', f, e.node, f'callback-after-unlink::{f.name}',
                            f'MetaData.{f.name}: the callback follows the removal of metadata.json',
                            detail='metadata.json removed without refreshing the README')
